@@ -105,6 +105,11 @@ type Var struct {
 	Global   bool
 	// static knowledge used to keep most programs panic-free
 	MinLen int // for slices/strings: a lower bound of the length (never shrinks in the generated code)
+	// Fresh: a container created in this function by a literal/make and never aliased (append / mutation stays local)
+	Fresh bool
+	// Clean (strings): only ever holds ByteString values (literals, substrings, conversions), never a concatenation.
+	// A concatenation result is a VM Buffer: `==`, switch and map keys misbehave on it (known finding string-concat-compare).
+	Clean bool
 }
 
 type Func struct {
@@ -116,6 +121,7 @@ type Func struct {
 	Body    E
 	Pure    bool
 	Defined bool
+	group   bool // print consecutive parameters of one type as a group
 }
 
 type scope struct {
@@ -144,10 +150,15 @@ type G struct {
 	depth     int // nesting depth of blocks
 	inDefer   bool
 	hasDefer  bool
+	hasBump   bool
 	noCalls   bool
 	safe      bool // no operation that can panic (global initialisers run in the batch's package init)
 	loopNest  int
 	selfCalls int
+	topCall   bool     // the call being generated is the whole right-hand side of a statement
+	cleanStr  bool     // string expressions must be ByteStrings
+	pure      bool     // the function being generated must not have side effects visible outside
+	impure    bool     // … and this one turned out to have some
 	initFns   []string // bodies of init functions (plain/checked pairs rendered later)
 	inits     []E
 	decls     []E
@@ -204,7 +215,9 @@ func (g *G) visible(pred func(*Var) bool) []*Var {
 func (g *G) noGlobals() bool { return false }
 
 func (g *G) pickVar(k Kind, writable bool) *Var {
-	vs := g.visible(func(v *Var) bool { return v.Ty.K == k && (!writable || !v.ReadOnly) })
+	vs := g.visible(func(v *Var) bool {
+		return v.Ty.K == k && (!writable || (!v.ReadOnly && !(g.pure && v.Global)))
+	})
 	if len(vs) == 0 {
 		return nil
 	}
@@ -213,7 +226,31 @@ func (g *G) pickVar(k Kind, writable bool) *Var {
 	if g.r.Bool() {
 		i = g.r.Intn(i + 1)
 	}
+	if writable && vs[i].Global {
+		g.impure = true
+	}
 	return vs[i]
+}
+
+// pickMut: a container that may be mutated in place. In a pure function only fresh locals qualify.
+func (g *G) pickMut(k Kind, needFresh bool) *Var {
+	vs := g.visible(func(v *Var) bool {
+		if v.Ty.K != k || v.ReadOnly {
+			return false
+		}
+		if needFresh || g.pure {
+			return v.Fresh && !v.Global
+		}
+		return true
+	})
+	if len(vs) == 0 {
+		return nil
+	}
+	v := vs[g.r.Intn(len(vs))]
+	if !v.Fresh {
+		g.impure = true
+	}
+	return v
 }
 
 var smallInts = []int64{0, 1, 2, 3, 4, 5, 7, 8, 10, 15, 16, 17, 31, 32, 33, 100, 127, 128, 255, 256, 1000}
@@ -230,10 +267,7 @@ func (g *G) intLit() E {
 		v = smallInts[g.r.Intn(len(smallInts))]
 	}
 	if g.r.Chance(1, 5) {
-		if v == 1<<63-1 && g.r.Bool() {
-			g.f("lit:minint64")
-			return E{"-9223372036854775808", "-9223372036854775808", 6, true}
-		}
+		// (the literal -9223372036854775808 is the known finding minint64-literal)
 		s := fmt.Sprintf("-%d", v)
 		return E{s, s, 6, true}
 	}
@@ -486,7 +520,14 @@ func (g *G) genBool(d int) E {
 			op = "!="
 		}
 		g.f("expr:streq")
-		return bin(op, 3, g.genStr(d-1), g.genStr(d-1), "")
+		a, b := g.genStrClean(d-1), g.genStrClean(d-1)
+		if strings.HasPrefix(a.p, "\"") && strings.HasPrefix(b.p, "\"") {
+			// two literals would be folded; compare a variable if there is one
+			if vs := g.visible(func(v *Var) bool { return v.Ty.K == KStr && v.Clean }); len(vs) > 0 {
+				a = g.use(vs[g.r.Intn(len(vs))])
+			}
+		}
+		return bin(op, 3, a, b, "")
 	case 6:
 		if e, ok := g.genCall(tBool, d); ok {
 			return e
@@ -512,7 +553,30 @@ func (g *G) strLit() (E, int) {
 	return atom(fmt.Sprintf("%q", s)), len(s)
 }
 
+// genStrClean: a string expression whose VM value is a ByteString (never a Buffer).
+func (g *G) genStrClean(d int) E {
+	vs := g.visible(func(v *Var) bool { return v.Ty.K == KStr && v.Clean })
+	switch g.r.Intn(4) {
+	case 0, 1:
+		if len(vs) > 0 {
+			return g.use(vs[g.r.Intn(len(vs))])
+		}
+	case 2:
+		if v := g.pickVar(KStr, false); v != nil && v.MinLen > 0 && !g.safe {
+			lo := g.r.Intn(v.MinLen + 1)
+			hi := lo + g.r.Intn(v.MinLen-lo+1)
+			g.f("expr:substr")
+			return atom(fmt.Sprintf("%s[%d:%d]", g.use(v).p, lo, hi))
+		}
+	}
+	e, _ := g.strLit()
+	return e
+}
+
 func (g *G) genStr(d int) E {
+	if g.cleanStr {
+		return g.genStrClean(d)
+	}
 	if d <= 0 || g.r.Chance(1, 3) {
 		if v := g.pickVar(KStr, false); v != nil && g.r.Chance(2, 3) {
 			return g.use(v)
@@ -638,9 +702,15 @@ func (g *G) genPtr(t Ty, d int) E {
 	keyed := g.r.Bool()
 	for _, f := range t.S.Fields {
 		if keyed && g.r.Chance(1, 3) {
+			g.f("expr:struct-lit-omitted-field")
 			continue // left at the zero value
 		}
-		e := g.genExpr(f.Ty, min(d-1, 1))
+		var e E
+		if f.Ty.K == KStr {
+			e = g.genStrClean(1) // struct string fields are compared by the observers
+		} else {
+			e = g.genExpr(f.Ty, min(d-1, 1))
+		}
 		if keyed {
 			ps, cs = append(ps, f.Name+": "+e.p), append(cs, f.Name+": "+e.c)
 		} else {
@@ -656,20 +726,38 @@ func (g *G) genCall(t Ty, d int) (E, bool) {
 	if g.noCalls || g.safe || (g.loopNest > 0 && !g.r.Chance(1, 4)) {
 		return E{}, false
 	}
+	// Inside an expression only side-effect-free functions are called: Go leaves the order between a call and
+	// the reads of variables in the same expression unspecified.
 	var cands []*Func
 	for _, f := range g.funcs {
-		if len(f.Rets) == 1 && f.Rets[0].K == t.K && (f.Rets[0].K != KPtr) {
+		if len(f.Rets) == 1 && f.Rets[0].K == t.K && (f.Rets[0].K != KPtr) && (f.Pure || g.topCall) {
 			cands = append(cands, f)
 		}
 	}
-	if g.cur != nil && g.cur.Rec && len(g.cur.Rets) == 1 && g.cur.Rets[0].K == t.K && g.loopNest == 0 && g.selfCalls < 2 {
+	if g.cur != nil && g.cur.Rec && len(g.cur.Rets) == 1 && g.cur.Rets[0].K == t.K && g.loopNest == 0 && g.selfCalls < 2 && (g.pure || g.topCall) {
 		cands = append(cands, g.cur)
 	}
 	if len(cands) == 0 {
 		return E{}, false
 	}
 	f := cands[g.r.Intn(len(cands))]
-	return g.callOf(f, d)
+	top := g.topCall
+	g.topCall = false // the arguments are ordinary expressions
+	e, ok := g.callOf(f, d)
+	g.topCall = top
+	if ok && !f.Pure {
+		g.impure = true
+	}
+	return e, ok
+}
+
+// genTopCall: `f(args)` as the whole right-hand side of a statement; any function may be called there.
+func (g *G) genTopCall(t Ty) (E, bool) {
+	old := g.topCall
+	g.topCall = true
+	e, ok := g.genCall(t, 3)
+	g.topCall = old
+	return e, ok
 }
 
 func (g *G) callOf(f *Func, d int) (E, bool) {
@@ -757,7 +845,7 @@ func (g *G) inLoop() bool {
 func (g *G) genStmt() E {
 	g.budget--
 	var s sb
-	w := []int{14, 10, 8, 9, 8, 5, 4, 4, 5, 3, 3, 3, 4, 3, 3, 2, 3}
+	w := []int{14, 9, 7, 9, 8, 5, 4, 5, 9, 3, 3, 3, 4, 3, 3, 3, 3}
 	if g.depth >= 3 {
 		w[3], w[4], w[5], w[6], w[9] = 2, 1, 1, 1, 0
 	}
@@ -786,7 +874,17 @@ func (g *G) genStmt() E {
 		if v == nil {
 			return g.genDefine(tInt)
 		}
-		e := g.genInt(3)
+		var e E
+		called := false
+		if g.r.Chance(1, 4) {
+			if ce, ok := g.genTopCall(tInt); ok {
+				e, called = ce, true
+				g.f("stmt:assign-call")
+			}
+		}
+		if !called {
+			e = g.genInt(3)
+		}
 		g.f("stmt:assign")
 		s.pc(fmt.Sprintf("%s = %s\n", v.Name, e.p), fmt.Sprintf("%s = %s\n", v.Name, e.c))
 	case 2: // op-assign / incdec
@@ -806,7 +904,7 @@ func (g *G) genStmt() E {
 			ops := []struct{ op, ck string }{{"+=", "ck_add"}, {"-=", "ck_sub"}, {"*=", "ck_mul"}, {"+=", "ck_add"}, {"/=", "ck_div"}, {"%=", "ck_mod"}, {"|=", ""}, {"&=", ""}}
 			o := ops[g.r.Intn(len(ops))]
 			e := g.genInt(2)
-			if (o.op == "/=" || o.op == "%=") && isLit(e) && strings.Trim(e.p, "-0") == "" {
+			if (o.op == "/=" || o.op == "%=") && e.cst {
 				e = g.smallLit(1, 5)
 			}
 			g.f("stmt:opassign" + o.op)
@@ -857,9 +955,14 @@ func (g *G) genStmt() E {
 			}
 		}
 		if v := g.pickVar(KStr, true); v != nil {
-			e := g.genStr(2)
+			var e E
+			if v.Clean {
+				e = g.genStrClean(2)
+			} else {
+				e = g.genStr(2)
+			}
 			g.f("stmt:assign-str")
-			if g.r.Bool() {
+			if g.r.Bool() && !v.Clean {
 				v.Used = true
 				s.pc(fmt.Sprintf("%s += %s\n", v.Name, e.p), fmt.Sprintf("%s += %s\n", v.Name, e.c))
 			} else {
@@ -879,7 +982,7 @@ func (g *G) genStmt() E {
 		g.f("stmt:cond-panic")
 		s.pc("if "+c.p+" {\npanic(\"boom\")\n}\n", "if "+c.c+" {\npanic(\"boom\")\n}\n")
 	case 15: // struct field update
-		if v := g.pickVar(KPtr, false); v != nil {
+		if v := g.pickMut(KPtr, false); v != nil {
 			f := v.Ty.S.Fields[g.r.Intn(len(v.Ty.S.Fields))]
 			if f.Ty.K == KInt || f.Ty.K == KBool {
 				v.Used = true
@@ -905,12 +1008,12 @@ func (g *G) genStmt() E {
 		}
 		return g.genStmtSimple()
 	default: // var declaration with zero value
-		ks := []Ty{tInt, tBool, tStr, tInts, tMapII}
+		ks := []Ty{tInt, tBool, tStr, tInts}
 		t := ks[g.r.Intn(len(ks))]
 		n := g.fresh("z")
 		g.f("stmt:var-zero")
 		s.both("var %s %s\n", n, t.src())
-		g.declare(&Var{Name: n, Ty: t})
+		g.declare(&Var{Name: n, Ty: t, Fresh: true, Clean: t.K == KStr && g.r.Bool()})
 	}
 	return s.E()
 }
@@ -959,6 +1062,8 @@ func (g *G) genStmtSimple() E {
 func (g *G) genDefine(t Ty) E {
 	var s sb
 	minLen := 0
+	clean := false
+	shadow := false
 	var e E
 	switch t.K {
 	case KInts:
@@ -984,9 +1089,14 @@ func (g *G) genDefine(t Ty) E {
 			}
 		}
 	case KStr:
-		if g.r.Bool() {
+		switch g.r.Intn(3) {
+		case 0:
 			e, minLen = g.strLit()
-		} else {
+			clean = true
+		case 1:
+			e = g.genStrClean(2)
+			clean = true
+		default:
 			e = g.genStr(2)
 		}
 	case KMapII, KMapSI:
@@ -997,11 +1107,21 @@ func (g *G) genDefine(t Ty) E {
 			e = g.genMap(t)
 		}
 	default:
-		e = g.genExpr(t, 3)
+		called := false
+		if (t.K == KInt || t.K == KBool) && g.r.Chance(1, 5) {
+			if ce, ok := g.genTopCall(t); ok {
+				e, called = ce, true
+				g.f("stmt:define-call")
+			}
+		}
+		if !called {
+			e = g.genExpr(t, 3)
+		}
 	}
+	fresh := t.K == KInts || t.K == KBytes || t.K == KMapII || t.K == KMapSI || (t.K == KPtr && strings.HasPrefix(e.p, "&"))
 	// shadow an existing name sometimes (exercises the scope handling of the compiler)
 	name := g.fresh("v")
-	if g.depth > 1 && g.r.Chance(1, 6) {
+	if g.depth > 1 && g.r.Chance(1, 3) {
 		if old := g.pickVar(t.K, false); old != nil && !old.Global && !old.ReadOnly && (t.K != KPtr || old.Ty.S == t.S) {
 			inCur := false
 			for _, v := range g.scopes[len(g.scopes)-1].vars {
@@ -1011,18 +1131,19 @@ func (g *G) genDefine(t Ty) E {
 			}
 			if !inCur {
 				name = old.Name
+				shadow = true
 				g.f("stmt:shadow")
 			}
 		}
 	}
 	g.f("stmt:define")
 	// `var x T = … x …` that shadows an outer x is the known finding var-decl-shadow-self: shadows use `:=`
-	if g.r.Chance(1, 8) && t.K != KPtr && name[0] == 'v' {
+	if g.r.Chance(1, 8) && t.K != KPtr && !shadow {
 		s.pc(fmt.Sprintf("var %s %s = %s\n", name, t.src(), e.p), fmt.Sprintf("var %s %s = %s\n", name, t.src(), e.c))
 	} else {
 		s.pc(fmt.Sprintf("%s := %s\n", name, e.p), fmt.Sprintf("%s := %s\n", name, e.c))
 	}
-	g.declare(&Var{Name: name, Ty: t, MinLen: minLen})
+	g.declare(&Var{Name: name, Ty: t, MinLen: minLen, Fresh: fresh, Clean: clean})
 	return s.E()
 }
 
@@ -1380,13 +1501,20 @@ func (g *G) genBranch() E {
 
 func (g *G) genContainerStmt() E {
 	var s sb
-	switch g.r.Intn(6) {
-	case 0: // append to []int
-		if v := g.pickVar(KInts, true); v != nil {
+	which := g.r.Weighted([]int{4, 2, 2, 1, 1, 2})
+	// make sure there is something to work on
+	need := map[int]Ty{0: tInts, 1: tInts, 2: tMapII, 3: tMapII, 4: tMapII, 5: tBytes}[which]
+	if g.pickMut(need.K, which == 0 || which == 5) == nil && g.r.Chance(2, 3) {
+		return g.genDefine(need)
+	}
+	switch which {
+	case 0: // append to []int (only to a slice nothing else refers to: APPEND grows the shared array in the VM)
+		if v := g.pickMut(KInts, true); v != nil {
 			e := g.genInt(2)
 			g.f("stmt:append-ints")
 			v.Used = true
-			if g.r.Chance(1, 4) {
+			if g.r.Chance(1, 3) {
+				g.f("stmt:append-multi")
 				e2 := g.genInt(1)
 				s.pc(fmt.Sprintf("%s = append(%s, %s, %s)\n", v.Name, v.Name, e.p, e2.p), fmt.Sprintf("%s = append(%s, %s, %s)\n", v.Name, v.Name, e.c, e2.c))
 			} else {
@@ -1395,7 +1523,7 @@ func (g *G) genContainerStmt() E {
 			return s.E()
 		}
 	case 1: // slice element update
-		if v := g.pickVar(KInts, false); v != nil && v.MinLen > 0 {
+		if v := g.pickMut(KInts, false); v != nil && v.MinLen > 0 {
 			e := g.genInt(2)
 			i := g.r.Intn(v.MinLen)
 			v.Used = true
@@ -1409,16 +1537,16 @@ func (g *G) genContainerStmt() E {
 			return s.E()
 		}
 	case 2: // map update
-		if v := g.pickVar(KMapII, false); v != nil {
+		if v := g.pickMut(KMapII, false); v != nil {
 			v.Used = true
 			k, e := g.genInt(1), g.genInt(2)
 			g.f("stmt:map-set")
 			s.pc(fmt.Sprintf("%s[%s] = %s\n", v.Name, k.p, e.p), fmt.Sprintf("%s[%s] = %s\n", v.Name, k.c, e.c))
 			return s.E()
 		}
-		if v := g.pickVar(KMapSI, false); v != nil {
+		if v := g.pickMut(KMapSI, false); v != nil {
 			v.Used = true
-			k, e := g.genStr(1), g.genInt(2)
+			k, e := g.genStrClean(1), g.genInt(2)
 			g.f("stmt:map-set")
 			s.pc(fmt.Sprintf("%s[%s] = %s\n", v.Name, k.p, e.p), fmt.Sprintf("%s[%s] = %s\n", v.Name, k.c, e.c))
 			return s.E()
@@ -1435,7 +1563,7 @@ func (g *G) genContainerStmt() E {
 			return s.E()
 		}
 	case 4: // delete
-		if v := g.pickVar(KMapII, false); v != nil {
+		if v := g.pickMut(KMapII, false); v != nil {
 			v.Used = true
 			k := g.genInt(1)
 			g.f("stmt:map-delete")
@@ -1443,7 +1571,7 @@ func (g *G) genContainerStmt() E {
 			return s.E()
 		}
 	default: // byte slice update / append
-		if v := g.pickVar(KBytes, true); v != nil {
+		if v := g.pickMut(KBytes, true); v != nil {
 			v.Used = true
 			if v.MinLen > 0 && g.r.Bool() {
 				g.f("stmt:bytes-index-set")
@@ -1471,9 +1599,15 @@ func (g *G) genCallStmt() E {
 		return g.genStmtSimple()
 	}
 	f := cands[g.r.Intn(len(cands))]
+	if g.pure && !f.Pure {
+		return g.genStmtSimple()
+	}
 	e, ok := g.callOf(f, 2)
 	if !ok {
 		return g.genStmtSimple()
+	}
+	if !f.Pure {
+		g.impure = true
 	}
 	g.f("stmt:call")
 	if len(f.Rets) > 0 {
@@ -1490,7 +1624,7 @@ func (g *G) genMultiAssign() E {
 	}
 	var cands []*Func
 	for _, f := range g.funcs {
-		if len(f.Rets) == 2 && f.Recv == nil {
+		if len(f.Rets) == 2 && f.Recv == nil && (f.Pure || !g.pure) {
 			cands = append(cands, f)
 		}
 	}
@@ -1509,6 +1643,9 @@ func (g *G) genMultiAssign() E {
 	e, ok := g.callOf(f, 2)
 	if !ok {
 		return g.genStmtSimple()
+	}
+	if !f.Pure {
+		g.impure = true
 	}
 	x, y := g.fresh("m"), g.fresh("m")
 	g.f("stmt:multi-return-define")
@@ -1537,7 +1674,17 @@ func (g *G) genReturn() E {
 		g.noCalls = true
 	}
 	for _, t := range g.cur.Rets {
-		e := g.genExpr(t, 3)
+		var e E
+		called := false
+		if len(g.cur.Rets) == 1 && !g.noCalls && t.K != KPtr && g.r.Chance(1, 6) {
+			if ce, ok := g.genTopCall(t); ok {
+				e, called = ce, true
+				g.f("stmt:return-call")
+			}
+		}
+		if !called {
+			e = g.genExpr(t, 3)
+		}
 		ps, cs = append(ps, e.p), append(cs, e.c)
 	}
 	g.noCalls = old
